@@ -18,10 +18,14 @@ def find_builder(ctx):
     b = ctx.lib.bodies[dt]
     from ..facts import callee_name
     c = []
-    for _, t in b.calls():
-        n = callee_name(t)
-        if n in ctx.lib.bodies and ctx.lib.bodies[n].locals[0]['s'].startswith('std::result::Result<') and \
-                'PrayerTime' in ctx.lib.bodies[n].locals[0]['s']:
+    pl = ctx.role('policy_layer')
+    for n in ctx.reach(dt):
+        bb = ctx.lib.bodies.get(n)
+        if bb is None or n == dt or bb.kind not in ('Fn', 'AssocFn'):
+            continue
+        rt = bb.locals[0]['s']
+        # the function (anywhere below prayer_times_dt) that returns one Result<PrayerTime, ()> and reruns the pipeline
+        if rt.startswith('std::result::Result<') and 'PrayerTime' in rt and pl in ctx.reach(n):
             c.append(n)
     c = sorted(set(c))
     if len(c) != 1:
@@ -73,8 +77,26 @@ def analyse(ctx):
         ty = body.locals[i]
         inner = ty.get('ref') or ty
         adt = inner.get('adt', '')
-        nm = 'params' if adt == ctx.adt('Params') else 'tad' if adt == ctx.role('eph_type') else 'weather' if adt.endswith('Weather') else f'arg{i}'
-        args[i - 1] = E.mk_ref(('S', ('param', nm)), ()) if 'ref' in ty else ('param', nm)
+
+        def by_type(t_, fallback):
+            in_ = t_.get('ref') or t_
+            a_ = in_.get('adt', '') or ''
+            nm_ = 'params' if a_ == ctx.adt('Params') else 'tad' if a_ == ctx.role('eph_type') else 'weather' if a_.endswith('Weather') else None
+            if nm_ is None:
+                return None
+            return E.mk_ref(('S', ('param', nm_)), ()) if 'ref' in t_ else ('param', nm_)
+        v = by_type(ty, None)
+        if v is None and adt in ctx.lib.adts and len(ctx.lib.adts[adt]['variants']) == 1:
+            # a private context struct carrying the parameters / ephemeris / weather: build it from its field types
+            fs = []
+            for j, f in enumerate(ctx.lib.adts[adt]['variants'][0]['fields']):
+                fv = by_type(f['ty'], None)
+                fs.append(fv if fv is not None else ('param', f.get('name') or f'f{j}'))
+            sv = E.mk_enum(adt, ctx.lib.adts[adt]['variants'][0]['name'], 0, tuple(fs))
+            v = E.mk_ref(('S', sv), ()) if 'ref' in ty else sv
+        if v is None:
+            v = E.mk_ref(('S', ('param', f'arg{i}')), ()) if 'ref' in ty else ('param', f'arg{i}')
+        args[i - 1] = v
     tree = eng.call_entry(ib, args)
     leaves = list(E.leaves_of(tree))
     r = dict(builder=ib, pcalls=pcalls, ccalls=ccalls, leaves=leaves, eng=eng)
